@@ -102,7 +102,7 @@ PROPS = {
         'trusted': ['the system-level run uses the real clock and the real generator (no model comparison of requests; the factory assignment is compared with the model)'],
     },
     'C16': {
-        'theorems': ['lockset_sound', 'lock_discipline', 'package_maps_guarded', 'shared_writes_classified', 'tls_config_aliases_classified', 'redis_store_stateless'],
+        'theorems': ['lockset_sound', 'lock_discipline', 'package_maps_guarded', 'shared_writes_classified', 'tls_config_aliases_classified', 'field_maps_guarded', 'redis_store_stateless'],
         'race': True,
         'level_text': 'PARTIAL. A Lean 4 theorem about lock-based executions (lockset soundness, unbounded) instantiated on an access table regenerated from the source by a syntactic extractor, plus a classification of every other shared write; the race detector (thorough tier) is the search for a concrete race and validates the table. Soundness of the syntactic extraction, the Go memory model and races inside libraries are outside the proof.',
         'trusted': ['tools/factgen lock-state tracking is a linear syntactic walk (Lock/Unlock/defer) - sound for the straight-line lock usage in this code base, not in general', 'Go memory model: Unlock synchronises-before a later Lock', 'races inside libraries (jwx cache, go-redis, controller-runtime) are out of scope'],
